@@ -566,9 +566,9 @@ def c09(out):
 
 @prop("C11")
 def c11(out):
-    trace, known = ops_check(out, {"exact", "exact_rep"},
+    trace, known = ops_check(out, {"exact", "exact_rep", "accessors"},
                              lambda r: nontriv_ops_basic(r) and (r.get("swaps", 0) > 0 or r.get("cc", False)),
-                             "captured op lists judged by TLC with Ops!ExactPositions (both indices of every op equal the "
+                             "captured op lists (as stored and as shown by old_range / new_range / tag / as_tag_tuple) judged by TLC with Ops!PositionsExact (both indices of every op equal the "
                              "items consumed so far); every case is run twice, as shipped and with the cfg(similar_verif) "
                              "swap-repair switch on, for known-finding attribution; non-trivial = a swap arm fired or the "
                              "compaction changed the script",
